@@ -30,6 +30,19 @@ const Sep = " ## "
 type Rand struct{ s uint64 }
 
 func NewRand(seed uint64) *Rand { return &Rand{s: seed*0x9E3779B97F4A7C15 + 0x1234567} }
+
+// MixSeed spreads the command-line seeds: NewRand(k+1) is NewRand(k) advanced by one draw, so the streams of
+// seeds 1, 2, 3 would be shifted copies of each other. Seed 1 (the default, the stream every check was
+// developed against) is kept as it is; every other seed is hashed first.
+func MixSeed(seed uint64) uint64 {
+	if seed == 1 {
+		return 1
+	}
+	z := seed + 0x9E3779B97F4A7C15
+	z = (z ^ (z >> 30)) * 0xBF58476D1CE4E5B9
+	z = (z ^ (z >> 27)) * 0x94D049BB133111EB
+	return z ^ (z >> 31)
+}
 func (r *Rand) U64() uint64 {
 	r.s += 0x9E3779B97F4A7C15
 	z := r.s
@@ -128,7 +141,7 @@ func Main(h Harness) {
 			panic(err)
 		}
 		w := bufio.NewWriterSize(f, 1<<20)
-		h.Gen(NewRand(*seed), *tier, *scale, func(line string) {
+		h.Gen(NewRand(MixSeed(*seed)), *tier, *scale, func(line string) {
 			if strings.ContainsAny(line, "\n\r") {
 				panic("script line contains newline: " + line)
 			}
